@@ -1,1 +1,243 @@
-//! helpers shared by file/CLI level stages (filled in as stages are added)
+//! helpers shared by file/CLI level stages: CLI runner with CPU-progress watchdog, output parsers.
+
+use crate::common::Ctx;
+use std::io::{Read, Write};
+use std::process::{Command, Stdio};
+use std::time::{Duration, Instant};
+
+#[derive(Debug, Clone)]
+pub struct CliOut {
+    pub code: Option<i32>,
+    pub signal: Option<i32>,
+    pub stdout: Vec<u8>,
+    pub stderr: String,
+    pub cpu_s: f64,
+    pub wall_s: f64,
+    /// wall-clock watchdog fired (inconclusive unless one of the two hang signatures holds)
+    pub timed_out: bool,
+    /// consumed more CPU than the bound for a tiny input
+    pub cpu_exceeded: bool,
+    /// no CPU progress for the stall window while alive
+    pub stalled: bool,
+    pub valgrind_errors: bool,
+}
+
+impl CliOut {
+    pub fn ok(&self) -> bool {
+        self.code == Some(0) && !self.timed_out
+    }
+    pub fn panicked(&self) -> bool {
+        self.stderr.contains("panicked at") || self.code == Some(101) || self.signal.is_some()
+    }
+    pub fn describe(&self) -> String {
+        format!(
+            "exit={:?} signal={:?} timed_out={} cpu={:.2}s stderr={:?}",
+            self.code,
+            self.signal,
+            self.timed_out,
+            self.cpu_s,
+            self.stderr.lines().filter(|l| !l.trim().is_empty()).last().unwrap_or("").chars().take(200).collect::<String>()
+        )
+    }
+}
+
+fn proc_cpu_seconds(pid: u32) -> Option<f64> {
+    let s = std::fs::read_to_string(format!("/proc/{}/stat", pid)).ok()?;
+    let rest = &s[s.rfind(')')? + 2..];
+    let f: Vec<&str> = rest.split_whitespace().collect();
+    // after "pid (comm)": state is f[0]; utime = field 14 overall -> index 11 here, stime index 12
+    let ut: f64 = f.get(11)?.parse().ok()?;
+    let stt: f64 = f.get(12)?.parse().ok()?;
+    let hz = unsafe { libc::sysconf(libc::_SC_CLK_TCK) } as f64;
+    Some((ut + stt) / hz.max(1.0))
+}
+
+pub struct CliLimits {
+    pub wall: Duration,
+    pub cpu_max_s: f64,
+    pub stall: Duration,
+}
+
+impl Default for CliLimits {
+    fn default() -> Self {
+        CliLimits { wall: Duration::from_secs(180), cpu_max_s: 60.0, stall: Duration::from_secs(30) }
+    }
+}
+
+/// Run the real kmertools binary.  `valgrind` wraps it in memcheck (errors -> exit code 97).
+pub fn run_cli(ctx: &Ctx, args: &[String], stdin: Option<&[u8]>, lim: &CliLimits) -> CliOut {
+    let valgrind = ctx.opt("valgrind").is_some();
+    let mut cmd = if valgrind {
+        let mut c = Command::new("valgrind");
+        c.args(["--quiet", "--error-exitcode=97", "--errors-for-leak-kinds=none", "--leak-check=no"]);
+        c.arg(ctx.cli_path());
+        c
+    } else {
+        Command::new(ctx.cli_path())
+    };
+    cmd.args(args);
+    cmd.stdin(if stdin.is_some() { Stdio::piped() } else { Stdio::null() });
+    cmd.stdout(Stdio::piped());
+    cmd.stderr(Stdio::piped());
+    cmd.env("RUST_BACKTRACE", "0");
+    cmd.env("NO_COLOR", "1");
+    let started = Instant::now();
+    let mut child = match cmd.spawn() {
+        Ok(c) => c,
+        Err(e) => {
+            return CliOut {
+                code: None,
+                signal: None,
+                stdout: vec![],
+                stderr: format!("spawn failed: {}", e),
+                cpu_s: 0.0,
+                wall_s: 0.0,
+                timed_out: true,
+                cpu_exceeded: false,
+                stalled: false,
+                valgrind_errors: false,
+            }
+        }
+    };
+    let pid = child.id();
+    let mut feeder = None;
+    if let Some(data) = stdin {
+        let mut si = child.stdin.take().unwrap();
+        let data = data.to_vec();
+        feeder = Some(std::thread::spawn(move || {
+            let _ = si.write_all(&data);
+        }));
+    }
+    let mut so = child.stdout.take().unwrap();
+    let mut se = child.stderr.take().unwrap();
+    let t_out = std::thread::spawn(move || {
+        let mut v = Vec::new();
+        let _ = so.read_to_end(&mut v);
+        v
+    });
+    let t_err = std::thread::spawn(move || {
+        let mut v = Vec::new();
+        let _ = se.read_to_end(&mut v);
+        v
+    });
+    let mut timed_out = false;
+    let mut cpu_exceeded = false;
+    let mut stalled = false;
+    let mut last_cpu = 0.0f64;
+    let mut last_progress = Instant::now();
+    let mut cpu = 0.0f64;
+    let mut polls = 0u64;
+    let status = loop {
+        match child.try_wait() {
+            Ok(Some(s)) => break Some(s),
+            Ok(None) => {}
+            Err(_) => break None,
+        }
+        polls += 1;
+        if polls % 20 == 0 {
+            if let Some(c) = proc_cpu_seconds(pid) {
+                cpu = c;
+                if c > last_cpu + 0.005 {
+                    last_cpu = c;
+                    last_progress = Instant::now();
+                }
+                if c > lim.cpu_max_s * if valgrind { 40.0 } else { 1.0 } {
+                    cpu_exceeded = true;
+                }
+            }
+            if last_progress.elapsed() > lim.stall {
+                stalled = true;
+            }
+        }
+        if started.elapsed() > lim.wall * if valgrind { 10 } else { 1 } {
+            timed_out = true;
+        }
+        if timed_out || cpu_exceeded || stalled {
+            let _ = child.kill();
+            break child.wait().ok();
+        }
+        std::thread::sleep(Duration::from_millis(if polls < 200 { 1 } else { 5 }));
+    };
+    if let Some(f) = feeder {
+        let _ = f.join();
+    }
+    let stdout = t_out.join().unwrap_or_default();
+    let stderr = String::from_utf8_lossy(&t_err.join().unwrap_or_default()).into_owned();
+    use std::os::unix::process::ExitStatusExt;
+    let (code, signal) = match status {
+        Some(s) => (s.code(), s.signal()),
+        None => (None, None),
+    };
+    CliOut {
+        code,
+        signal: if timed_out || cpu_exceeded || stalled { None } else { signal },
+        stdout,
+        stderr,
+        cpu_s: cpu,
+        wall_s: started.elapsed().as_secs_f64(),
+        timed_out,
+        cpu_exceeded,
+        stalled,
+        valgrind_errors: valgrind && code == Some(97),
+    }
+}
+
+pub fn sv(xs: &[&str]) -> Vec<String> {
+    xs.iter().map(|s| s.to_string()).collect()
+}
+
+/// Split file content into lines (without terminators); a trailing newline does not create an
+/// extra empty line, an empty file has zero lines.
+pub fn lines(data: &[u8]) -> Vec<&[u8]> {
+    if data.is_empty() {
+        return vec![];
+    }
+    let body = if data.ends_with(b"\n") { &data[..data.len() - 1] } else { data };
+    body.split(|&b| b == b'\n').collect()
+}
+
+pub fn split_fields<'a>(line: &'a [u8], delim: &[u8]) -> Vec<&'a [u8]> {
+    if delim.is_empty() {
+        return vec![line];
+    }
+    let mut out = Vec::new();
+    let mut start = 0;
+    let mut i = 0;
+    while i + delim.len() <= line.len() {
+        if &line[i..i + delim.len()] == delim {
+            out.push(&line[start..i]);
+            i += delim.len();
+            start = i;
+        } else {
+            i += 1;
+        }
+    }
+    out.push(&line[start..]);
+    out
+}
+
+pub fn parse_f64(b: &[u8]) -> Option<f64> {
+    std::str::from_utf8(b).ok()?.trim().parse::<f64>().ok()
+}
+
+/// "value printed with 6 decimals equals count/total correct to 6 decimals":
+/// |p - c/t| <= 0.5e-6 (+ slack for f64 division then decimal rounding).
+pub fn frac_matches(printed: f64, c: u64, t: u64) -> bool {
+    if t == 0 {
+        return printed == 0.0;
+    }
+    let exact = c as f64 / t as f64;
+    (printed - exact).abs() <= 0.5e-6 + 1e-9
+}
+
+pub fn truncate(s: &str, n: usize) -> String {
+    if s.len() <= n {
+        s.to_string()
+    } else {
+        let mut e = n;
+        while !s.is_char_boundary(e) {
+            e -= 1;
+        }
+        format!("{}…", &s[..e])
+    }
+}
